@@ -431,6 +431,9 @@ def run(p, rep, tier):
     r8(p, rep)
     r9(p, rep)
     r11(p, rep)
+    from . import c01 as _c01
+
+    _c01.r11(p, rep)  # an operation declared unsupported must stay unsupported (documented OperationNotSupportedError)
     # clauses shared with C02 / C12 whose violation surfaces as an internal exception type of an entry point
     from . import c02, c12
 
